@@ -3,28 +3,6 @@
 From RV Require Export Sparql.Agreement.
 Local Open Scope N_scope.
 
-Lemma dedup_in x L : In x (dedup L) <-> In x L.
-Proof.
-  induction L as [|y r IH]; cbn; [tauto|]. split.
-  - intros [->|I]; [now left|]. apply filter_In in I as [I _]. right. now apply IH.
-  - intros [->|I]; [now left|].
-    destruct (sol_eqb y x) eqn:E; [apply sol_eqb_eq in E; now left|].
-    right. apply filter_In. split; [now apply IH|]. now rewrite E.
-Qed.
-
-Lemma dedup_nodup L : NoDup (dedup L).
-Proof.
-  induction L as [|y r IH]; cbn; [constructor|]. constructor.
-  - intros I. apply filter_In in I as [_ I]. rewrite (proj2 (sol_eqb_eq y y) eq_refl) in I. discriminate.
-  - now apply NoDup_filter'.
-Qed.
-
-Lemma dedup_perm A B : Permutation A B -> Permutation (dedup A) (dedup B).
-Proof.
-  intros P. apply NoDup_Permutation; try apply dedup_nodup.
-  intros x. rewrite !dedup_in. split; apply Permutation_in; [exact P|now symmetry].
-Qed.
-
 Definition top_frag (names : list term) (p : alg) : bool :=
   match p with
   | Project q _ => frag names [] q
